@@ -188,6 +188,13 @@ def functional_steps(ctx):
         # a state of the space: exactly one Exit and a Beacon (the documented "unique object" preconditions), anything else anywhere
         g = gen.rand_grid(r, h, w, [t for t in types if t not in (TY['Exit'], TY['Beacon'])], [0, 1, 2, 3, 4], 0.5)
         cells = [(y, x) for y in range(h) for x in range(w)]
+        if r.random() < 0.3:
+            # boxes (with a key / floor / wall inside) are objects of the declared spaces too: observing or stepping must not touch their content
+            desc['state_types'] = desc['state_types'] + [TY['Box']]
+            desc['obs_types'] = desc['obs_types'] + [TY['Box']]
+            for _ in range(r.randint(1, 3)):
+                g = gen.set_cell(g, r.choice(cells), (TY['Box'], 0, 0, r.choice([(TY['Key'], 0, r.choice([1, 2, 4]), None), gen.FLOOR, gen.WALL])))
+            ctx.count('functional_step', 'with boxes')
         e_pos, b_pos = r.sample(cells, 2)
         g = gen.set_cell(g, e_pos, (TY['Exit'], 0, r.choice([0, 1, 2]), None))
         g = gen.set_cell(g, b_pos, (TY['Beacon'], 0, r.choice([1, 2]), None))
